@@ -84,7 +84,7 @@ int parse_directives(AsmContext *)
 {
   int r = nondet_int(); ASSUME(r >= -1 && r <= 5);
   g_pd_last = r;
-  if (r != 0 && r != 3 && r != 4) { g_err_pending = 1; g_errors++; }
+  if (r != 0 && r != 3 && r != 4 && r != 5) { g_err_pending = 1; g_errors++; }
   return r;
 }
 int parse_instruction_msp430(AsmContext *, char *) { return 0; }
@@ -137,7 +137,8 @@ extern "C" void h_assemble()
   g_ntok = 0; g_err_pending = 0; g_eof_seen = 0; g_errors = 0; g_pd_last = 0; g_list_calls = 0; g_list_ok = 1; g_in_instr = 0; g_nchars = 0;
   g_p_error_count = &ctx.error_count; g_p_address = &ctx.address; g_p_line = &ctx.tokens.line; g_p_icount = &ctx.instruction_count; g_p_ccount = &ctx.code_count; g_p_error = &ctx.error;
   int r = ctx.assemble();
-  OBL(r == 0 || r == 2 || r == 3 || r == -1, "C12.assemble: result is 0 (end), 2 (.else), 3 (.endr) or -1 (error)");
+  OBL(r == 0 || r == 2 || r == 3 || r == 4 || r == -1, "C12.assemble: result is 0 (end), 2 (.else), 3 (.endr), 4 (.endif) or -1 (error)");
+  if (r == 4) OBL(g_pd_last == 5, "C10.assemble: 4 is returned only when the directive handler reported the .endif of the block, and then at once");
   OBL(!g_err_pending || r == -1, "C12.assemble: an error reported by any statement handler makes assemble() fail (never skipped silently)");
   if (ec0 > 0) OBL(r == -1 && g_ntok == 0, "C12.assemble: an error recorded earlier (e.g. in pass 1 or by the tokenizer) fails the pass before any statement is read");
   if (r == 0) OBL(ctx.error == false, "C12.assemble: success is never reported with the error flag set");
